@@ -25,10 +25,10 @@ func (c07Stream) Name() string               { return "c07" }
 func (c07Stream) CaseTimeout() time.Duration { return 60 * time.Second }
 func (c07Stream) NoModel() bool              { return true }
 func (c07Stream) Rule() string {
-	return "one fault per scenario - a panicking handler for each concurrently dispatched operation (bind, search, modify, add, delete, extended), for StartTLS, for the unbind route and for the default route; a connection reset; a truncated frame followed by silence; a client that sends searches with large results and never reads; descriptor exhaustion at accept (RLIMIT_NOFILE lowered in the worker); 48 connections whose read loops end on a malformed frame while a slow request of theirs is still being handled, with 48 new connections arriving at once; a client of a TLS listener that sends a truncated first record and stalls; a frame of 2^20 nested indefinite-length sequence headers (goroutine stack limit lowered to 32 MiB in the worker) - injected while two bystander connections issue requests continuously; oracle: the worker process survives, the bystanders keep receiving correct responses during and after the fault, and a new connection is accepted and served afterwards; non-trivial = every scenario, distinct by fault"
+	return "one fault per scenario - a panicking handler for each concurrently dispatched operation (bind, search, modify, add, delete, extended), for StartTLS, for the unbind route and for the default route; a connection reset; a truncated frame followed by silence; a client that sends searches with large results and never reads, also one whose requests are served by the default route; descriptor exhaustion at accept (RLIMIT_NOFILE lowered in the worker); 48 connections whose read loops end on a malformed frame while a slow request of theirs is still being handled, with 48 new connections arriving at once; a client of a TLS listener that sends a truncated first record and stalls; a frame of 2^20 nested indefinite-length sequence headers (goroutine stack limit lowered to 32 MiB in the worker) - injected while two bystander connections issue requests continuously; oracle: the worker process survives, the bystanders keep receiving correct responses during and after the fault, and a new connection is accepted and served afterwards; non-trivial = every scenario, distinct by fault"
 }
 
-var c07Faults = []string{"panic-bind", "panic-search", "panic-modify", "panic-add", "panic-delete", "panic-extended", "panic-starttls", "panic-unbind", "panic-default", "rst", "truncated", "notreading", "fdexhaust", "deepnest", "latewriter", "tlsstall"}
+var c07Faults = []string{"panic-bind", "panic-search", "panic-modify", "panic-add", "panic-delete", "panic-extended", "panic-starttls", "panic-unbind", "panic-default", "rst", "truncated", "notreading", "notreading-default", "fdexhaust", "deepnest", "latewriter", "tlsstall"}
 
 func (c07Stream) Generate(rng *rand.Rand, n int, thorough bool) []Case {
 	var cs []Case
@@ -94,6 +94,14 @@ func (c07Stream) Impl(c Case) string {
 	_ = mux.DefaultRoute(func(w *gldap.ResponseWriter, r *gldap.Request) {
 		if r.VerifMessage().GetID() == 666 {
 			panic("default-route handler panic injected by the harness")
+		}
+		if m, ok := r.VerifMessage().(*gldap.ExtendedOperationMessage); ok && string(m.Name) == "9.9.9.1" && fault == "notreading-default" {
+			// the client of this request never reads: the handler ends up blocked in Write on the default route
+			for i := 0; i < 400; i++ {
+				if err := w.Write(r.NewResponse(gldap.WithResponseCode(0), gldap.WithDiagnosticMessage(payload))); err != nil {
+					return
+				}
+			}
 		}
 		answer(w, r)
 	})
@@ -187,6 +195,14 @@ func (c07Stream) Impl(c Case) string {
 		var buf []byte
 		for j := 0; j < 3; j++ {
 			r := Req{Kind: "search", ID: int64(j + 1), DN: victimDN, Scope: 2, Filter: "(cn=x)"}
+			nd, _ := r.Node()
+			buf = append(buf, nd.Ser()...)
+		}
+		_ = victim.send(buf)
+	case fault == "notreading-default":
+		var buf []byte
+		for j := 0; j < 3; j++ {
+			r := Req{Kind: "extended", ID: int64(j + 1), Name: "9.9.9.1"}
 			nd, _ := r.Node()
 			buf = append(buf, nd.Ser()...)
 		}
